@@ -42,5 +42,13 @@ CLAIMS = {
         "note": TRUST + "dict.update semantics",
         "technique": "cursor-advance / loop-carried-state analysis on value-flow terms (static analysis)",
     },
+    "C13": {
+        "text": "Validation dominates construction on every path of the response constructor (must-pass-through), the body-check "
+                "exemption is exactly the PropertiesResponse class selected by ids 0xB0/0xB1, checksum/CRC coverage ranges and the "
+                "accept condition (normal completion implies CRC-8 or additive match) are read off value-flow terms, and only "
+                "normally constructed responses can reach the valid list, _update_state, `supported` and `online`.",
+        "note": TRUST + "no arithmetic claim about the accept-either coincidence (1 in 255), stated in DESIGN.md",
+        "technique": "must-pass-through + value-flow range/provenance analysis (static analysis)",
+    },
 }
 NOT_APPLICABLE = {}
